@@ -1919,3 +1919,7 @@ mod test {
     // - slice_reader
     pub(super) use check;
 }
+
+#[cfg(kani)]
+#[path = "/verif/kani/in_reader.rs"]
+mod verif_kani;
